@@ -54,22 +54,22 @@ def peaks_validate(chk, q, rng):
     for _ in range(200 if q else 2000):          # longer random signals on small alphabets (plateaus everywhere)
         n = rng.randint(10, 40)
         sigs.append([rng.randint(0, 3) for _ in range(n)])
-    dts = ['int64', 'float64', 'int16', 'float32']
+    dts = ['int64', 'float64', 'int16', 'float32', 'uint8', 'uint16', 'int8', 'uint32']
     seen = set()
     for si, s in enumerate(sigs):
         key = tuple(s)
         if key in seen:
             continue
         seen.add(key)
-        arr = np.array(s, dtype=dts[si % 4])
+        arr = np.array([v * 40 for v in s] if si % 8 >= 4 else s, dtype=dts[si % 8])       # unsigned / int8 arrays with large steps (differences do not fit the dtype)
         for d in (ds if len(s) <= 10 else [rng.choice([2, 3, 5, 7, 11])]):
             for h in ((0, 1) if q else (0, 1, 2)):
-                hh = (-np.inf if si % 2 else 0) if h == 0 else (h if si % 3 else float(h))
+                hh = (-np.inf if si % 2 else 0) if h == 0 else ((h if si % 3 else float(h)) * (40 if si % 8 >= 4 else 1))
                 out = find_peaks(arr.copy(), d, hh)
                 cases.append({'sig': s, 'd': d, 'h': h, 'out': [int(x) for x in out]})
                 if si % 5 == 0:          # the same shape with negative values and a negative height: judged by TLC on its own values
                     s2 = [3 * v - 4 for v in s]
-                    out2 = find_peaks(np.array(s2, dtype=dts[(si + 1) % 4]), d, 3 * h - 4 if si % 2 else float(3 * h - 4))
+                    out2 = find_peaks(np.array(s2, dtype=dts[(si + 1) % 4 if (si + 1) % 4 != 0 or True else 0] if dts[(si + 1) % 4] not in ('uint8',) else 'int16'), d, 3 * h - 4 if si % 2 else float(3 * h - 4))
                     cases.append({'sig': s2, 'd': d, 'h': 3 * h - 4, 'out': [int(x) for x in out2]})
     verdicts = {}
     CH = 60000
@@ -210,7 +210,7 @@ def widths(chk, q):
     for i, e in enumerate(r.emits()):
         s = e['sig']
         L = len(s)
-        arr = np.array(s, dtype=['int64', 'float64', 'int16'][i % 3])
+        arr = np.array(s, dtype=['int64', 'float64', 'int16', 'int8', 'float32'][i % 5])        # unsigned arrays are refused by find_width with POSITIVE direction (numpy 2 OverflowError on -1 * data): a refusal, not claimed
         for dname, dr in (('pos', Direction.POSITIVE), ('neg', Direction.NEGATIVE)):
             for thr in (0, 1):
                 tab = e['width'][dname][str(thr)]
@@ -273,7 +273,8 @@ def run(chk):
                 'each OUTPUT judged by TLC against ValidPeaks; non-trivial = >= 2 candidates and distance >= 1.  Moving operators / pattern scores / find_width: every signal of the bound enumerated by TLC with '
                 'expected values, 1-D and as lanes of 3-D arrays along all six axis spellings; one evaluation = one compared output')
     chk.assumptions += ['zero-variance windows (0/0) follow numpy and are not compared for skew/kurtosis/correlation/bcdc', 'sqrt and the 3/2 power evaluated outside TLC on exact rationals',
-                        'height 0 on non-negative signals stands for -inf (both spellings are passed to the code)', 'pad / extract_around_indexes index maps are checked on seeded random shapes (in-range windows)']
+                        'height 0 on non-negative signals stands for -inf (both spellings are passed to the code)', 'pad / extract_around_indexes index maps are checked on seeded random shapes (in-range windows)',
+                        'find_width on unsigned integer arrays is refused by numpy 2 for Direction.POSITIVE (OverflowError): not claimed']
     peaks_model(chk, q)
     peaks_validate(chk, q, rng)
     moving(chk, q)
